@@ -136,6 +136,30 @@ def contains(t: T, pred: Callable[[T], bool]) -> bool:
     return any(pred(x) for x in subterms(t))
 
 
+def resolve_by_path(t: T, path, memo=None) -> T:
+    """Replace phi(c ? a : b) by the arm selected when the path fixes the polarity of c (or of `not c`)."""
+    known = {}
+    for c, pol in path:
+        known[c] = pol
+        if c.op == "unop" and c.args[0] == "not" and isinstance(c.args[1], T):
+            known[c.args[1]] = not pol
+    if memo is None:
+        memo = {}
+
+    def go(x):
+        if x.uid in memo:
+            return memo[x.uid]
+        if x.op == "phi" and x.args[0] in known:
+            r = go(x.args[1] if known[x.args[0]] else x.args[2])
+        else:
+            new_args = tuple(go(a) if isinstance(a, T) else a for a in x.args)
+            r = x if all(p is q for p, q in zip(new_args, x.args)) else simplify(x.op, *new_args)
+        memo[x.uid] = r
+        return r
+
+    return go(t)
+
+
 def substitute(t: T, mapping: Dict[T, T], memo=None) -> T:
     if memo is None:
         memo = {}
@@ -313,6 +337,7 @@ class Frame:
         self.types: Dict[T, str] = {}  # term -> class qualname (static receiver type)
         self.caller: Optional["Frame"] = None
         self.exact_self = False  # self is exactly self_class (no subclasses)
+        self.inlined: List[Tuple[T, "Frame"]] = []  # (result term, frame) of callees evaluated in place
 
     def lookup(self, nm: str) -> Optional[T]:
         f = self
@@ -575,11 +600,14 @@ class Evaluator:
             self.join_state(fr, s1, True, True)
             return
         if e1.terminated:
+            # guard clause: the rest of the block runs only when the test failed
             fr.env = e2
+            fr.path = path0 + ((cond, False),)
             self.join_state(fr, s1, True, False)
             return
         if e2.terminated:
             fr.env = e1
+            fr.path = path0 + ((cond, True),)
             self.join_state(fr, s1, False, True)
             return
         merged = Env()
@@ -649,8 +677,10 @@ class Evaluator:
         if target is not None:
             self.assign(fr, target, mk("iter", header_term, lid), st.lineno)
         saved_term = fr.env.terminated
+        saved_path = fr.path
         self.exec_block(fr, st.body)
         fr.env.terminated = saved_term  # a return inside the loop does not end the function
+        fr.path = saved_path
         fr.loops = old_loops
         for v in assigned:
             fin = fr.env.vars.get(v)
@@ -1187,7 +1217,54 @@ class Evaluator:
             self._depth -= 1
         r = self.result(sub)
         self.emit(fr, "exit_call", line, (callee, r))
+        fr.inlined.append((r, sub))
+        # an exception raised inside a callee evaluated in place is an exit of the caller on that path
+        fr.raises.extend(sub.raises)
         return r
+
+    def leaves(self, fr: Frame) -> List[Tuple[tuple, str, T, int]]:
+        """Exits of a function as (path conditions, 'return' | 'raise', term, line), with callees that were evaluated
+        in place expanded: a return whose value is the (multi-exit) result of such a callee is split into one leaf per
+        exit of the callee, so that moving branches into a helper does not change the set of leaves."""
+        out: List[Tuple[tuple, str, T, int]] = []
+        multi = [(r, sub) for r, sub in fr.inlined if len(sub.returns) > 1]
+
+        def contradicts(p_a, p_b) -> bool:
+            d = {}
+            for c, pol in p_a:
+                d[c] = pol
+            return any(c in d and d[c] != pol for c, pol in p_b)
+
+        def expand(path, term, line, depth=0):
+            if depth > 6:
+                out.append((tuple(path), "return", term, line))
+                return
+            inl = [(r, sub) for r, sub in multi if any(x is r for x in subterms(term))]
+            if not inl:
+                out.append((tuple(path), "return", term, line))
+                return
+            # a branch that selects between helper results: one leaf per arm
+            known = {c for c, _ in path}
+            for x in subterms(term):
+                if x.op == "phi" and x.args[0] not in known and not any(x is r for r, _ in inl) and any(
+                        any(y is r for a_ in x.args[1:] if isinstance(a_, T) for y in subterms(a_)) for r, _ in inl):
+                    for pol in (True, False):
+                        p2 = tuple(path) + ((x.args[0], pol),)
+                        expand(p2, resolve_by_path(term, p2), line, depth + 1)
+                    return
+            r, sub = inl[0]
+            for p2, t2, l2 in sub.returns:
+                if contradicts(path, p2):
+                    continue
+                ext = tuple(c for c in p2 if c not in path)
+                full = tuple(path) + ext
+                expand(full, resolve_by_path(substitute(term, {r: t2}), full), l2, depth + 1)
+
+        for path, term, line in fr.returns:
+            expand(tuple(path), term, line)
+        for path, term, line in fr.raises:
+            out.append((tuple(path), "raise", term, line))
+        return out
 
     def _open_transform(self, fr: Frame, t: T, line: int):
         """Walk the bodies of closures handed to scan / vmap / jvp / vjp so that the
